@@ -205,9 +205,11 @@ def c12(ctx):
     # (2) map-only and list-only builders: top-level wrong-kind rejections + typed (bindnode) containers
     asm_generate_and_replay(ctx, "map", dict(topkind="map", nodes=4, depth=2, nkeys=2 if quick else 3,
                                              rejects=1, resets=0, kinds=("int", "string"),
-                                             prebuilt="basic"), profiles)
+                                             prebuilt="basic"), profiles,
+                            targets=["basicnode.Map", "bindnode.Map{String:Any}", "bindnode.Map{String:Any}(values not nullable)"])
     asm_generate_and_replay(ctx, "list", dict(topkind="list", nodes=4, depth=2, nkeys=2, rejects=1,
-                                              resets=0, kinds=("int", "string"), prebuilt="basic"), profiles)
+                                              resets=0, kinds=("int", "string"), prebuilt="basic"), profiles,
+                            targets=["basicnode.List", "bindnode.List[Any]", "bindnode.List[Any](values not nullable)"])
     # (3) Build / Reset / reuse
     asm_generate_and_replay(ctx, "reset", dict(topkind="any", nodes=4 if quick else 5, depth=2, nkeys=2, rejects=1,
                                                resets=1 if quick else 2, routes=("entry", "keyvalue"),
